@@ -367,7 +367,7 @@ class ColorValue(Value):
         noalp = Sequence(
             Prod(
                 name='FUNCTION',
-                match=lambda t, v: t == types.FUNCTION and v in ('rgb(', 'hsl('),
+                match=lambda t, v: t == types.FUNCTION and normalize(v) in ('rgb(', 'hsl('),
                 toSeq=lambda t, tokens: (t[0], normalize(t[1])),
             ),
             component,
@@ -377,7 +377,7 @@ class ColorValue(Value):
         witha = Sequence(
             Prod(
                 name='FUNCTION',
-                match=lambda t, v: t == types.FUNCTION and v in ('rgba(', 'hsla('),
+                match=lambda t, v: t == types.FUNCTION and normalize(v) in ('rgba(', 'hsla('),
                 toSeq=lambda t, tokens: (t[0], normalize(t[1])),
             ),
             component,
